@@ -256,7 +256,7 @@ def main():
         },
         'engines': [
             {'name': 'E1', 'path': 'vf/engine/explore.py', 'serves_properties': ['C03', 'C06', 'C07', 'C09', 'C14', 'C19'], 'kind_free_text': 'stateless choice-tree explorer over environment answers of the real controller (deviation bounded, replayable)'},
-            {'name': 'E2', 'path': 'vf/engine/enumerate.py', 'serves_properties': ['C01', 'C02', 'C04', 'C05', 'C10', 'C11', 'C12', 'C13', 'C15', 'C17', 'C18', 'C20'], 'kind_free_text': 'exhaustive configuration-lattice x basis-input enumeration against independent reference models'},
+            {'name': 'E2', 'path': 'vf/oracle/', 'serves_properties': ['C01', 'C02', 'C04', 'C05', 'C10', 'C11', 'C12', 'C13', 'C15', 'C17', 'C18', 'C20'], 'kind_free_text': 'exhaustive configuration-lattice x basis-input enumeration (driven by the property modules vf/props/cNN.py with common.pmap) against the independent reference models in vf/oracle/'},
             {'name': 'E3', 'path': 'vf/engine/simmpi.py', 'serves_properties': ['C08'], 'kind_free_text': 'simulated mpi4py with baton scheduler; enumerates rank interleavings up to a preemption bound'},
             {'name': 'E4', 'path': 'vf/engine/crash.py', 'serves_properties': ['C16'], 'kind_free_text': 'crash-prefix enumerator over recorded write histories'},
         ],
